@@ -125,6 +125,11 @@ inline std::vector<PrimaryCase> primary_lattice(bool thorough)
                 for (size_t d = 0; d < axis.size(); ++d)
                     v.push_back({k, energies[e], dyadic[p], axis[d],
                                  fmt("k%d.e%zu.q%zu.a%zu", k, e, p, d)});
+    // a RANGE-limited step that ties with the boundary distance: 0.125 MeV e-/e+ with the
+    // lattice's dE/dx = 2 MeV/cm has a range of exactly 0.0625 cm, the distance from
+    // x = 1.4375 to the +x face (x = 1.5) of the inner box of g1
+    for (int k = 1; k < 3; ++k)
+        v.push_back({k, 0.125, {1.4375, 0.125, 0.0}, {1, 0, 0}, fmt("k%d.er.q2.a0", k)});
     return v;
 }
 
@@ -190,6 +195,57 @@ inline std::vector<ConfigCase> config_lattice(bool thorough)
                         c.init_capacity = 4096;
                         v.push_back({c, fmt("g%d.%s.s%u.o%d.x%d", g, along_name(a), s, int(o), xs)});
                     }
+    if (!thorough)
+    {
+        // quick tier: one non-identity thread<->slot map and one rotated-daughter geometry
+        for (int which = 0; which < 2; ++which)
+        {
+            LoopConfig c;
+            c.geometry = which ? 3 : 1;
+            c.geo_variant = 1;
+            c.along = AlongStep::linear;
+            c.slots = 3;
+            c.track_order = which ? TrackOrder::none : TrackOrder::reindex_status;
+            c.xs_gamma = 0.7;
+            c.xs_electron = 1.0;
+            c.dedx = 2.0;
+            v.push_back({c, fmt("g%d.linear.s3.o%d.x0", c.geometry, int(c.track_order))});
+        }
+    }
+    // starved secondary stack (capacity = int(slots x factor)): the allocation-failure branch
+    // of InteractionApplier runs inside the ledger; at-rest annihilation needs 2 entries
+    for (auto a : {AlongStep::linear, AlongStep::field_fluct})
+        for (auto sc : {std::pair<unsigned, unsigned>{2, 2}, std::pair<unsigned, unsigned>{3, 3}})
+        {
+            if (!thorough && a != AlongStep::linear && sc.first == 3)
+                continue;
+            LoopConfig c;
+            c.geometry = 1;
+            c.geo_variant = 1;
+            c.along = a;
+            c.slots = sc.first;
+            c.secondary_stack_factor = (sc.second + 0.5) / sc.first;
+            c.xs_gamma = 0.7;
+            c.xs_electron = 1.0;
+            c.dedx = 2.0;
+            v.push_back({c, fmt("g1.%s.s%u.o0.x0.cap%u", along_name(a), sc.first, sc.second)});
+        }
+    // production default: no post-interaction cuts (secondaries are born below the cuts)
+    for (auto a : {AlongStep::linear, AlongStep::linear_fluct})
+    {
+        if (!thorough && a != AlongStep::linear)
+            continue;
+        LoopConfig c;
+        c.geometry = 1;
+        c.geo_variant = 1;
+        c.along = a;
+        c.slots = 1;
+        c.apply_post_interaction_cuts = false;
+        c.xs_gamma = 0.7;
+        c.xs_electron = 1.0;
+        c.dedx = 2.0;
+        v.push_back({c, fmt("g1.%s.s1.o0.x0.nocut", along_name(a))});
+    }
     // fixed_step_limiter variants (dyadic limit: exact ties with the dyadic faces of g1)
     for (auto a : thorough ? std::vector<AlongStep>{AlongStep::linear, AlongStep::linear_fluct,
                                                     AlongStep::field}
@@ -407,6 +463,14 @@ inline Verdict check_steps(LoopProblem const& P, std::vector<StepRec> const& rec
                 && s.status == int(TrackStatus::alive))
                 after_along[{s.event, s.track, s.num_steps}] = &s;
     double const scale = 10;  // geometry scale (cm)
+    int const failure = [&] {
+        for (auto const& kv : P.action_labels)
+            if (kv.second == "physics-failure")
+                return int(kv.first);
+        return -1;
+    }();
+    // the recorded field+msc excess does not end the examination of the execution
+    Verdict pending;
     for (auto const& kv : tracks)
     {
         auto const& st = kv.second.steps;
@@ -417,6 +481,15 @@ inline Verdict check_steps(LoopProblem const& P, std::vector<StepRec> const& rec
                 return fmt("event %u track %u step %u (%s)", s.event, s.track, s.step_count,
                            P.action_labels.at(s.action).c_str());
             };
+            if (k == 0 && st.size() == 1 && s.step_count == 0 && s.step_length == 0
+                && P.action_labels.at(s.action) == "tracking-cut" && s.pre.volume < 0)
+            {
+                // not a step: a track that failed to initialise (no volume) is killed by the
+                // tracking cut before it ever moves; its energy is deposited (C01 books it)
+                R.tag("steps:killed-at-initialisation(no volume)");
+                R.count("killed_at_initialisation");
+                continue;
+            }
             if (s.step_count != k + 1)
                 return Verdict{"steps:count-not-consecutive",
                                where() + fmt(": %zu-th record has step count %u", k + 1, s.step_count)};
@@ -445,9 +518,11 @@ inline Verdict check_steps(LoopProblem const& P, std::vector<StepRec> const& rec
                                where() + fmt(": %.17g -> %.17g", s.pre.energy, s.post.energy)};
             if (!(s.step_length > 0))
             {
-                // allowed only for a stopped particle interacting at rest
+                // allowed only for a stopped particle interacting at rest (a step whose
+                // interaction failed to allocate its secondaries keeps the travelled length)
                 if (!(s.step_length == 0 && s.pre.energy == 0))
-                    return Verdict{"steps:nonpositive-length",
+                    return Verdict{s.action == failure ? "steps:nonpositive-length[failed-allocation]"
+                                                       : "steps:nonpositive-length",
                                    where() + fmt(": length %.17g at E %.17g", s.step_length,
                                                  s.pre.energy)};
                 R.tag("steps:zero-length-at-rest");
@@ -466,10 +541,27 @@ inline Verdict check_steps(LoopProblem const& P, std::vector<StepRec> const& rec
             if (in_field && s.step_length < dx * (1 - 1e-12) - 1e-14 * scale)
                 R.tag("steps:field-displacement-exceeds-path-within-driver-tolerance");
             if (s.step_length < dx * (1 - 1e-12) - slack)
-                return Verdict{in_field && has_msc(P.cfg.along)
-                                   ? "steps:shorter-than-displacement[field+msc]"
+            {
+                // recorded finding (field + MSC): the lateral MSC displacement 0.73 sqrt(t^2-g^2)
+                // is added to the chord of a curved path, so |dx| <= g + 0.73 sqrt(t^2-g^2)
+                // <= 1.2381 t.  Anything beyond that bound is something else.
+                bool const recorded = in_field && has_msc(P.cfg.along)
+                                      && dx <= 1.2381 * s.step_length + slack;
+                Verdict v{recorded ? "steps:shorter-than-displacement[field+msc]"
                                    : "steps:shorter-than-displacement",
-                               where() + fmt(": length %.17g < displacement %.17g", s.step_length, dx)};
+                          where() + fmt(": length %.17g < displacement %.17g", s.step_length, dx)};
+                if (!recorded)
+                    return v;
+                if (!pending)
+                    pending = v;
+            }
+            // a straight line (neutral particle, or no field and no MSC): the reported path
+            // length IS the displacement - a step that is not shortened to what was
+            // travelled (e.g. to the boundary) is as wrong as one that is too short
+            if (!in_field && !(has_msc(P.cfg.along) && s.particle != int(P.gamma.unchecked_get()))
+                && std::fabs(s.step_length - dx) > 1e-12 * s.step_length + 1e-13 * scale)
+                return Verdict{"steps:length-differs-from-straight-displacement",
+                               where() + fmt(": length %.17g, displacement %.17g", s.step_length, dx)};
             if (probes)
             {
                 auto it = pre_limit.find({s.event, s.track, s.step_count - 1});
@@ -523,13 +615,29 @@ inline Verdict check_steps(LoopProblem const& P, std::vector<StepRec> const& rec
                     // step; geometry state not on a boundary afterwards) end exactly on a
                     // surface by rounding, after which the navigator no longer sees it?
                     std::string sig = "steps:volume-does-not-contain-position";
+                    // candidate landing steps: this track's steps back from k, then (for a
+                    // track that never left its birth volume) the parent's step that ended at
+                    // the birth point - a secondary inherits the parent's geometry state
+                    std::vector<StepRec const*> back;
                     for (size_t j = k + 1; j-- > 0;)
+                        if (!(j == k && !w))  // the pre-point is the previous step's post-point
+                            back.push_back(st[j]);
+                    if (st[0]->parent != no_id)
                     {
-                        StepRec const& b = *st[j];
-                        if (j < k && b.post.volume != pt.volume)
+                        auto pit = tracks.find({st[0]->event, st[0]->parent});
+                        if (pit != tracks.end())
+                            for (size_t j = pit->second.steps.size(); j-- > 0;)
+                                if (pit->second.steps[j]->post.pos == st[0]->pre.pos)
+                                {
+                                    back.push_back(pit->second.steps[j]);
+                                    break;
+                                }
+                    }
+                    for (size_t bi = 0; bi < back.size(); ++bi)
+                    {
+                        StepRec const& b = *back[bi];
+                        if (bi > 0 && b.post.volume != pt.volume)
                             break;
-                        if (j == k && !w)
-                            continue;  // the pre-point is the previous step's post-point
                         if (b.action == boundary)
                             break;
                         OLocation lb = P.oracle->locate(b.post.pos, 1e-13);
@@ -610,7 +718,7 @@ inline Verdict check_steps(LoopProblem const& P, std::vector<StepRec> const& rec
         }
         R.count("status_checked", last.size());
     }
-    return {};
+    return pending;
 }
 
 //---------------------------------------------------------------------------//
